@@ -371,7 +371,7 @@ func c07GenSpelled(rep *Report, seen map[string]bool, cfg Config) {
 	// kind at position through each spelling: every Go-valued kind at position 0,1,2 of a 3-chain whose
 	// conditions are all spelled the same way, the other two conditions taking every truth assignment
 	for _, k := range c07AllKinds {
-		if !k.isVar {
+		if !k.isVar || k.light || k.noHelper {
 			continue
 		}
 		for pos := 0; pos < 3; pos++ {
